@@ -182,8 +182,134 @@ def r25c(ctx, run):
                   % (desc, line, col, want_line, norm(want_col)))
 
 
+def r25d(ctx, run):
+    """LineIndex::new / line_col evaluated on concrete texts that contain multi-byte characters: offsets, line starts and columns are BYTE quantities
+    (ranges are byte ranges, the snippet code slices lines by bytes); a line table built from character indices is right on ASCII and wrong after the
+    first non-ASCII character"""
+    from symint import SymInterp
+    from absint import Obj, Term, Variant, Panic, CannotEstablish
+    L = "line_index/src/lib.rs"
+    new = ctx.syn.fn("LineIndex::new", L)
+    lc = ctx.syn.fn("LineIndex::line_col", L)
+    idxf = [f for f in ctx.syn.fns_in(L) if f.qual.endswith("::index") and f.body is not None and not f.in_test][0]
+
+    class CI(SymInterp):
+        def eval(self, e, env):
+            if e["k"] == "cast":
+                v = self.eval(e["e"], env)
+                if isinstance(v, int) and not isinstance(v, bool):
+                    return v
+                if isinstance(v, str) and len(v) == 1:
+                    return ord(v)
+            if e["k"] == "lit" and e.get("t") == "char":
+                lit = e["v"][1:-1] if e["v"].startswith("'") else e["v"]
+                return {"\\n": "\n", "\\r": "\r", "\\t": "\t"}.get(lit, lit)
+            if e["k"] == "lit" and isinstance(e.get("v"), str) and e["v"].startswith("b'"):
+                lit = e["v"][2:-1]
+                return ord({"\\n": "\n", "\\r": "\r"}.get(lit, lit))
+            if e["k"] == "index":
+                b = self.eval(e["e"], env)
+                if isinstance(b, Obj) and b.name == "LineIndex":
+                    return self.inline(idxf, [self.eval(e["i"], env)], recv=b)
+                i = self.eval(e["i"], env)
+                if isinstance(b, list) and isinstance(i, int):
+                    if not (0 <= i < len(b)):
+                        raise Panic("line_starts[%d] out of bounds (%d lines)" % (i, len(b)))
+                    return b[i]
+            if e["k"] == "struct" and e["p"] in ("Self", "LineIndex"):
+                return Obj("LineIndex", **{f[0]: self.eval(f[1], env) for f in e["f"]})
+            if e["k"] in ("ref",) or (e["k"] == "un" and e.get("op") in ("*", "&")):
+                return self.eval(e["e"], env)
+            return super().eval(e, env)
+
+        def binop(self, op, l, r, e):
+            if op == "-" and isinstance(l, int) and isinstance(r, int) and not isinstance(l, bool) and l - r < 0:
+                raise Panic("attempt to subtract with overflow: `%s`" % canon(e))
+            if op in ("==", "!=") and isinstance(l, str) and isinstance(r, str):
+                return (l == r) == (op == "==")
+            return super().binop(op, l, r, e)
+
+        def default_method(self, recv, m, args, e):
+            if isinstance(recv, str):
+                if m in ("match_indices", "rmatch_indices"):
+                    b, pat = recv.encode(), args[0].encode() if isinstance(args[0], str) else bytes([args[0]])
+                    out = [(i, args[0]) for i in range(len(b)) if b[i:i + len(pat)] == pat]
+                    return out if m == "match_indices" else list(reversed(out))
+                if m == "chars":
+                    return list(recv)
+                if m == "char_indices":
+                    out, p_ = [], 0
+                    for c in recv:
+                        out.append((p_, c))
+                        p_ += len(c.encode())
+                    return out
+                if m in ("bytes", "as_bytes"):
+                    return list(recv.encode())
+                if m == "len":
+                    return len(recv.encode())
+                if m == "len_utf8":
+                    return len(recv.encode())
+                if m in ("lines", "split"):
+                    return recv.split("\n") if m == "lines" or args[0] == "\n" else recv.split(args[0])
+                if m == "split_inclusive":
+                    return [x for x in recv.splitlines(True)]
+            if isinstance(recv, list):
+                if m == "chain" and isinstance(args[0], list):
+                    return recv + args[0]
+                if m == "scan":
+                    st, out = [args[0]], []
+                    raise CannotEstablish("scan")
+                if m == "partition_point":
+                    n = 0
+                    for x in recv:
+                        if self.call_closure(args[0], [x]) is not True:
+                            break
+                        n += 1
+                    return n
+                if m == "binary_search":
+                    import bisect
+                    i = bisect.bisect_left(recv, args[0])
+                    return Variant("Ok", {"0": i}) if i < len(recv) and recv[i] == args[0] else Variant("Err", {"0": i})
+            return super().default_method(recv, m, args, e)
+    texts = ["ab\ncd\nef", "\u00e9\na", "a\u2615\n\nb\u00e9c\nd", "\n", "x", "\u00e9\u00e9\n\u00e9\n\n\u00e9", "a\r\nb\n"]
+    n, bad = 0, None
+    funcs = {"TextSize::from": lambda i, a: a[0], "TextSize::new": lambda i, a: a[0], "u32::from": lambda i, a: a[0], "usize::from": lambda i, a: a[0],
+             "iter::once": lambda i, a: [a[0]], "std::iter::once": lambda i, a: [a[0]], "TextSize::of": lambda i, a: len(a[0].encode())}
+    for t in texts:
+        b = t.encode()
+        it = CI(funcs=dict(funcs))
+        try:
+            li = it.run_fn(new, {new.param_names()[0]: t})
+        except (Panic, CannotEstablish) as c:
+            bad = (t, None, "cannot establish the line table: %s" % getattr(c, "what", c))
+            break
+        for off in range(len(b) + 1):
+            if off < len(b) and (b[off] & 0xC0) == 0x80:
+                continue
+            n += 1
+            want_line = b[:off].count(b"\n")
+            want_col = off - (b[:off].rfind(b"\n") + 1)
+            try:
+                res = it.inline(lc, [off], recv=li)
+                line = res[0].payload.get("0") if isinstance(res, tuple) and isinstance(res[0], Variant) else None
+                col = res[1].payload.get("0") if isinstance(res, tuple) and isinstance(res[1], Variant) else None
+                got = (line, col)
+            except (Panic, CannotEstablish) as c:
+                got = "cannot establish: %s" % getattr(c, "what", c)
+            if got != (want_line, want_col):
+                bad = (t, off, "line_col(%d) = %s; the byte offset lies on line %d (zero-based), %d bytes after the line's start" % (off, got, want_line, want_col))
+                break
+        if bad:
+            break
+    if n < 40 and not bad:
+        raise LookupError("offsets evaluated: %d" % n)
+    run.check(bad is None, lc.site(), "LineIndex::new + line_col agree with byte-wise line/column on %d offsets of %d texts (multi-byte characters included)" % (n, len(texts)),
+              "LineIndex::line_col", "bytes", lc.file, lc.ln, "for the text %r: %s" % (bad[0], bad[2]) if bad else "")
+
+
 def rules(ctx):
     return [
+        Rule("R25.d", "LineIndex::new / line_col are byte-accurate on texts with multi-byte characters (evaluated on concrete texts)", 1, r25d),
         Rule("R25.a", "the header shows the 1-based line/column of the start of the diagnostic's own range", 8, r25a),
         Rule("R25.c", "LineIndex::new / line_col evaluated on symbolic newline positions: line = newlines before the offset, column = offset - line start, for every ordering class", 8, r25c),
         Rule("R25.b", "the LineIndex handed to the renderer is built from the snippet's text and belongs to the diagnostic's file", 5, r25b),
